@@ -61,7 +61,15 @@ impl AstCache {
                     println!("📄 Parsing file: {}", path.display());
                 }
 
-                let content = std::fs::read_to_string(path)?;
+                // A file that cannot be read as text (legacy encoding, gone in the meantime)
+                // is skipped like one that does not parse
+                let content = match std::fs::read_to_string(path) {
+                    Ok(content) => content,
+                    Err(e) => {
+                        eprintln!("❌ Failed to parse {}: {}", path.display(), e);
+                        continue;
+                    }
+                };
                 match syn::parse_file(&content) {
                     Ok(ast) => {
                         let parsed_file = ParsedFile::new(ast, path.to_path_buf());
